@@ -48,6 +48,10 @@ extern int mc_verbose;
  * this shard must run it (round-robin on the case counter, after the restart
  * point of a crashed worker). */
 int mc_case_begin(void);
+/* same, without the round-robin test (caller shards by mc_mine).  Returns 2 (and sets mc_muted)
+ * for cases judged before a worker restart that must be re-executed to rebuild exploration state. */
+int mc_case_begin_all(void);
+extern int mc_muted;
 /* shard selector for harnesses that shard on something else than the case counter */
 int mc_mine(uint64_t k);
 
@@ -240,5 +244,27 @@ struct vfam
 };
 void vfam_init(struct vfam *f, int maxdepth);
 V *vfam_get(const struct vfam *f, int depth, uint64_t idx);
+
+/* ---------- explicit-state BFS over operation histories (replayed on fresh objects) ---------- */
+#define BFS_MAXD 12
+struct bfs_cb
+{
+	void *(*fresh)(void);                        /* new object + model in the initial state */
+	void (*apply)(void *st, int op, int check);  /* check=1: execute with the oracle; 0: silent replay */
+	int (*menu)(void *st, int *ops, int cap);    /* operations enabled in this state */
+	uint64_t (*key)(void *st);                   /* exact canonical key of the state (merge only) */
+	void (*destroy)(void *st, int check);        /* release everything; check=1: leak/drain oracle */
+	void (*opname)(int op, sb_t *out);
+};
+struct bfs_stats
+{
+	long states, transitions, max_depth_done;
+};
+extern int bfs_cur_hist[BFS_MAXD + 1], bfs_cur_n; /* the history being executed (for describe) */
+void bfs_describe(const struct bfs_cb *cb, sb_t *out);
+/* explores to maxdepth; first_op_shard: histories are partitioned over shards by their first operation */
+void bfs_run(const struct bfs_cb *cb, int maxdepth, long maxstates, struct bfs_stats *st);
+/* replays "ops=a,b,c" with checks on; returns 0 */
+void bfs_replay(const struct bfs_cb *cb, const char *desc);
 
 #endif
